@@ -48,16 +48,28 @@ impl OutputManager {
             })?;
         }
 
-        // Test write permissions by creating a temporary file
-        let test_file = self.output_dir.join(".write_test");
-        fs::write(&test_file, "test").map_err(|e| {
+        // Check write permission from the directory's metadata. Nothing is created: a probe
+        // file would clobber a user file of the same name and would touch the (watched)
+        // output directory on every run.
+        let metadata = fs::metadata(&self.output_dir).map_err(|e| {
             OutputError::PermissionDenied(format!(
-                "Cannot write to output directory {}: {}",
+                "Cannot access output directory {}: {}",
                 self.output_dir.display(),
                 e
             ))
         })?;
-        fs::remove_file(&test_file).ok(); // Ignore errors on cleanup
+        if !metadata.is_dir() {
+            return Err(OutputError::InvalidPath(format!(
+                "Output path {} is not a directory",
+                self.output_dir.display()
+            )));
+        }
+        if metadata.permissions().readonly() {
+            return Err(OutputError::PermissionDenied(format!(
+                "Cannot write to output directory {}",
+                self.output_dir.display()
+            )));
+        }
 
         Ok(())
     }
